@@ -161,6 +161,18 @@ func (C04) execute(p *Plan, r *simkit.Run) *simkit.Violation {
 				return
 			}
 		}
+		// (vi) a session never outlives its node (deregistering the node ends its sessions in the same entry)
+		for _, id := range simkit.SortedKeys(now.sessions) {
+			sess := now.sessions[id]
+			_, nd, err := c.L.State().GetNode(sess.Node, nil, "")
+			if err != nil {
+				panic(err)
+			}
+			if nd == nil {
+				viol = mk("dangling-link", "session-ends-with-its-node", fmt.Sprintf("after entry %d (%s): session %s belongs to node %q, which is not registered", e.Index, e.Desc, tail8(id), sess.Node))
+				return
+			}
+		}
 		// (v) a session never outlives the health checks it is bound to: each of them exists on the session's
 		// node and is not critical (otherwise the entry that deleted the check / made it critical had to end the session)
 		for _, id := range simkit.SortedKeys(now.sessions) {
